@@ -148,7 +148,10 @@ impl Scenario for C08 {
                     1 => {}
                     _ => prefix.extend_from_slice(&rng.bytes(n)),
                 }
-                let src = SourceSpec { prefix, key: rng.u64() | 1, fault: None };
+                let mut src = SourceSpec { zero_run: 0, prefix, key: rng.u64() | 1, fault: None };
+                if kind == Kind::XorShift && rng.chance(1, 40) {
+                    src = gen_long_zero_source(rng);
+                }
                 spec.aux = vec![k as u64];
                 spec.seed = Some(if rng.chance(1, 2) { SeedSpec::FromRng(src) } else { SeedSpec::TryFromRng(src) });
             }
@@ -215,7 +218,7 @@ impl Scenario for C08 {
             SeedSpec::U64(_) => (None, 0),
             SeedSpec::FromRng(s) | SeedSpec::TryFromRng(s) => {
                 let mut k = 0;
-                while k < 16 && s.bytes(k * n, n).iter().all(|x| *x == 0) {
+                while k < 500_000 && s.bytes(k * n, n).iter().all(|x| *x == 0) {
                     k += 1;
                 }
                 (Some(s.bytes(if kind == Kind::XorShift { k * n } else { 0 }, n)), k)
